@@ -13,9 +13,16 @@ package state
 //   - the finalised head's header, body and state are readable (and are the
 //     header/body/state of the block with that hash: bytes vs the scenario's
 //     record, state vs a vcommon.OrdMap of that block);
+//   - every finalised block below the head (down to genesis) has its header,
+//     its body and its entry in the persistent number -> hash index, the head
+//     has its index entry too;
 //   - (set id, round) of the finalised head is not older than at the last
 //     quiescent point (completed step) at or before k;
 //   - s = GetCurrentSetID() has GetAuthorities(s) and GetSetIDChange(s).
+//
+// Second family (zz_verif_c36_cont_test.go): from the restart at k the scenario
+// is continued on the restarted node, the continuation's writes are recorded
+// and the databases [0,k)+cont[0,j) are restarted and judged the same way.
 
 import (
 	"bytes"
